@@ -267,6 +267,8 @@ def run_ods_rows(model, ch, document, sheet, fault=None):
     def archive_read(interp_, args, kwargs):
         if fault == "no content.xml":
             interp_.raise_("builtins.KeyError", "There is no item named 'content.xml' in the archive")
+        if fault == "damaged content.xml member":  # round 11: the directory is intact, the deflate stream is not
+            interp_.raise_("zlib.error", "Error -3 while decompressing data: invalid stored block lengths")
         return content
 
     archive = Obj("zipfile.ZipFile", {"read": archive_read, "close": stub(lambda i, a, k: None)}, label="archive")
@@ -289,6 +291,8 @@ def run_ods_rows(model, ch, document, sheet, fault=None):
         if isinstance(source, Obj) and source.attrs.get("content") is content or source is content:
             if fault == "malformed XML":
                 interp_.raise_("xml.etree.ElementTree.ParseError", "not well-formed (invalid token): line 1, column 0")
+            if fault == "XML in an undeclared encoding":  # round 11: expat answers LookupError / ValueError, not ParseError
+                interp_.raise_("builtins.LookupError", "unknown encoding: no-such-encoding")
             return tree
         raise Undecided("ElementTree.parse(%r)" % (source,))
 
@@ -423,7 +427,8 @@ def rule_container_faults(ctx, rule_id="O15.5"):
     ctx.res.minimum(rule_id, 1)
 
     def cell(ch):
-        fault = ch.choose("container", ["empty file", "not a zip archive", "no content.xml", "malformed XML"])
+        fault = ch.choose("container", ["empty file", "not a zip archive", "no content.xml", "malformed XML", "damaged content.xml member",
+                                         "XML in an undeclared encoding"])
         sheet = ch.choose("sheet", [1, 2])
         a = text_atom("A")
         document = build_document([[({}, [({}, [Element("text:p", text=a)])])], [({}, [({}, [Element("text:p", text=a)])])]])
@@ -434,7 +439,7 @@ def rule_container_faults(ctx, rule_id="O15.5"):
         return (key, "broken container not refused with DataFormatError",
                 "%d row(s), then %s" % (len(rows), "end of data (no error)" if outcome == "rows" else outcome))
 
-    decide_kinds(ctx, rule_id, "ods_rows(broken containers)", "cutplace.rowio.ods_rows", cell, min_cells=8)
+    decide_kinds(ctx, rule_id, "ods_rows(broken containers)", "cutplace.rowio.ods_rows", cell, min_cells=12)
 
 
 def rule_row_containers_and_covered_cells(ctx, rule_id="O15.3"):
